@@ -1108,6 +1108,99 @@ static void copy_run (long item)
 }
 Family fam_copy = { "copy", "prefix ; mpq_QScopy_prob ; interleaved steps on original and copy (C16); --opt steps=N", copy_init, copy_count, copy_run, NULL, 60 };
 
+/* ====================================================================== family cpar: a copy solves like its original under every parameter setting
+ * item = (start problem, optional one-operation prefix, parameter setting, entry point); the parameter is set on the original,
+ * the copy is taken, both are solved cold by the same entry point: return value, status and optimal value must be equal.
+ * The getters already agree in family copy; this one shows that what the parameters *do* was copied too (derived fields). */
+#define NCPAR 12
+static const char *cpar_name[NCPAR] = { "none", "primal_pricing=devex", "dual_pricing=dantzig", "scaling=0", "max_iterations=1", "max_iterations=2",
+	"objulim=-1000", "objulim=1000", "objllim=1000", "objllim=-1000", "objulim=0", "objllim=0" };
+static int cpar_apply (mpq_QSprob p, int k)
+{
+	mpq_t v; int rv = 0;
+	switch (k) {
+	case 0: return 0;
+	case 1: return mpq_QSset_param (p, QS_PARAM_PRIMAL_PRICING, QS_PRICE_PDEVEX);
+	case 2: return mpq_QSset_param (p, QS_PARAM_DUAL_PRICING, QS_PRICE_DDANTZIG);
+	case 3: return mpq_QSset_param (p, QS_PARAM_SIMPLEX_SCALING, 0);
+	case 4: return mpq_QSset_param (p, QS_PARAM_SIMPLEX_MAX_ITERATIONS, 1);
+	case 5: return mpq_QSset_param (p, QS_PARAM_SIMPLEX_MAX_ITERATIONS, 2);
+	default:
+		mpq_init (v);
+		mpq_set_si (v, k == 6 || k == 9 ? -1000 : k == 7 || k == 8 ? 1000 : 0, 1);
+		rv = mpq_QSset_param_EGlpNum (p, (k == 6 || k == 7 || k == 10) ? QS_PARAM_OBJULIM : QS_PARAM_OBJLLIM, v);
+		mpq_clear (v);
+		return rv;
+	}
+}
+static void cpar_init (void) { build_alphabets (); }
+static long cpar_count (void) { return (long) NSTART * (n_full + 1) * NCPAR * 4; }
+static void cpar_solve (mpq_QSprob p, int entry, int *rv, int *st, mpq_t val)
+{
+	*st = -1;
+	if (entry == 0) *rv = mpq_QSopt_primal (p, st);
+	else if (entry == 1) *rv = mpq_QSopt_dual (p, st);
+	else *rv = QSexact_solver (p, NULL, NULL, NULL, entry == 2 ? PRIMAL_SIMPLEX : DUAL_SIMPLEX, st);
+	mpq_set_ui (val, 0, 1);
+	if (!*rv && *st == QS_LP_OPTIMAL && mpq_QSget_objval (p, (mpq_t *) val)) *rv = -99;
+}
+static void cpar_run (long item)
+{
+	static const char *ename[4] = { "mpq_QSopt_primal", "mpq_QSopt_dual", "QSexact_solver(PRIMAL)", "QSexact_solver(DUAL)" };
+	long r = item;
+	int start = (int) (r % NSTART); r /= NSTART;
+	int pre = (int) (r % (n_full + 1)); r /= (n_full + 1);
+	int par = (int) (r % NCPAR); r /= NCPAR;
+	int entry = (int) (r % 4);
+	HState S; memset (&S, 0, sizeof S);
+	sb_init (&S.desc); sb_reserve (&S.desc, 4096);
+	qsx_log_reset ();
+	qsx_start ();
+	char why[700];
+	S.M = make_start (start); S.edited_since_solve = 1;
+	S.p = build_start (start, S.M);
+	int stop = !S.p;
+	if (!stop && pre < n_full) {
+		if (is_neutral (alpha_full[pre].op) || alpha_full[pre].op <= OP_SOLVE_DUAL) { STAT ("prefix_inapplicable"); stop = 1; }   /* only edits make new problems */
+		else {
+			apply_op (&S, alpha_full[pre]);
+			if (S.inapplicable || S.failed_valid || qsx_conform (S.p, S.M, 1, why, sizeof why)) { STAT ("prefix_inapplicable"); stop = 1; }
+		}
+	}
+	if (!stop && S.M->n == 0) { STAT ("prefix_inapplicable"); stop = 1; }
+	if (!stop) {
+		if (cpar_apply (S.p, par)) viol ("C07", "setparam-valid-rejected", "valid parameter %s rejected [start=%s%s]", cpar_name[par], start_name[start], S.desc.s);
+		mpq_QSprob c = mpq_QScopy_prob (S.p, "thecopy");
+		STAT ("api_transitions"); STAT ("copies"); STAT ("instances");
+		if (par) STAT ("instances_nontrivial");
+		if (!c) viol ("C16", "copy-failed", "mpq_QScopy_prob returned NULL [start=%s%s ; %s]", start_name[start], S.desc.s, cpar_name[par]);
+		else {
+			int rv0, st0, rv1, st1; mpq_t v0, v1; mpq_init (v0); mpq_init (v1);
+			cpar_solve (S.p, entry, &rv0, &st0, v0);
+			cpar_solve (c, entry, &rv1, &st1, v1);
+			STAT ("executions"); STAT ("executions");
+			{ char nm[64]; snprintf (nm, sizeof nm, "status_%s", rv0 ? "ERR" : status_name (st0)); stat_dyn (nm, ""); }
+			tr_int (rv0); tr_int (st0); tr_int (rv1); tr_int (st1); tr_mpq (v0); tr_mpq (v1);
+			if (rv0 != rv1 || st0 != st1 || !mpq_equal (v0, v1)) {
+				char *a = q_str (v0), *b = q_str (v1);
+				viol ("C16", "copy-solves-differently", "%s with %s: original rval=%d status=%s value=%s, copy rval=%d status=%s value=%s [start=%s%s]", ename[entry], cpar_name[par],
+					rv0, status_name (st0), a, rv1, status_name (st1), b, start_name[start], S.desc.s);
+				free (a); free (b);
+			}
+			if (sample_wanted ()) sample ("start=%s%s ; set %s ; COPY ; %s on both -> %s", start_name[start], S.desc.s, cpar_name[par], ename[entry], rv0 ? "ERR" : status_name (st0));
+			mpq_clear (v0); mpq_clear (v1);
+			mpq_QSfree_prob (c);
+		}
+	}
+	if (S.last) obs_free (S.last);
+	if (S.p) mpq_QSfree_prob (S.p);
+	if (S.M) ref_free (S.M);
+	unlink ("h.bas"); unlink ("h.lp"); unlink ("h.mps");
+	qsx_stop ();
+	sb_free (&S.desc);
+}
+Family fam_cpar = { "cpar", "start ; [edit] ; set parameter ; mpq_QScopy_prob ; same solve on original and copy must agree (C16)", cpar_init, cpar_count, cpar_run, NULL, 60 };
+
 /* =====================================================================
  * C06 growth tier: long ENUMERATED histories that cross the internal growth thresholds
  * (row/column arrays grow in steps of 100, the matrix in steps of 1000 entries):
